@@ -12,5 +12,5 @@ for i in $(seq -w 1 20); do LLVM_PROFILE_FILE=$T/raw/C$i-%p.profraw $T/target/re
 # the instrumented runs rewrote the evidence files: regenerate them with the normal build
 $BIN/llvm-profdata merge -sparse $T/raw/*.profraw -o $T/all.profdata
 $BIN/llvm-cov report $T/target/release/avgmc -instr-profile=$T/all.profdata --sources /repo/src
-rm -rf $T
+rm -rf $T; rm -f /repo/default_*.profraw /verif/mc/default_*.profraw /verif/default_*.profraw
 for i in $(seq -w 1 20); do /verif/check C$i quick >/dev/null 2>&1 || echo "C$i did not exit 0"; done
